@@ -289,11 +289,13 @@ class CombatEvent(Custom):
             ev = rng.randrange(3)
             out.append([dict(ev=0), dict(ev=1, duration=rng.randrange(2 ** 31), entity_id=rng.randrange(-2 ** 31, 2 ** 31)),
                         dict(ev=2, player_id=rng.randrange(2 ** 31), entity_id=rng.randrange(-2 ** 31, 2 ** 31), message='m' * rng.randrange(0, 200))][ev])
+        for d in out:
+            d['ev_class'] = ['EnterCombatEvent', 'EndCombatEvent', 'EntityDeadEvent'][d['ev']]      # the decoded event is an instance of the library's class
         return out[:n]
 
     def build(self, cls, ctx, spec, flags):
         E = [cls.EnterCombatEvent, cls.EndCombatEvent, cls.EntityDeadEvent][spec['ev']]
-        return cls(context=ctx, event=E(**{k: v for k, v in spec.items() if k != 'ev'}))
+        return cls(context=ctx, event=E(**{k: v for k, v in spec.items() if k not in ('ev', 'ev_class')}))
 
     def values(self, spec, flags):
         ev = spec['ev']
@@ -303,7 +305,7 @@ class CombatEvent(Custom):
     def fields_of(self, q, flags):
         e = q.event
         sl = type(e).__slots__
-        return dict({'ev': e.id}, **{k: getattr(e, k) for k in ((sl,) if isinstance(sl, str) else tuple(sl))})
+        return dict({'ev': e.id, 'ev_class': type(e).__name__}, **{k: getattr(e, k) for k in ((sl,) if isinstance(sl, str) else tuple(sl))})
 
 
 class SpawnObject(Custom):
@@ -510,6 +512,40 @@ def frame_of(p):
 
 # ---------------------------------------------------------------- the check
 
+_USER = []
+
+
+def user_subclasses():
+    """An application may subclass the record / event / enum classes nested in packet classes (to add behaviour); defining such
+    a subclass changes nothing in what the library writes or decodes.  Defined once per process, kept alive."""
+    if _USER:
+        return len(_USER)
+    import importlib
+    from minecraft.networking.connection import ConnectionContext
+    seen = set()
+    for d in ('clientbound', 'serverbound'):
+        for st in ('handshake', 'status', 'login', 'play'):
+            m = importlib.import_module('minecraft.networking.packets.%s.%s' % (d, st))
+            for pv in (47, 340, 578, 754, 757):
+                for cls in m.get_packets(ConnectionContext(protocol_version=pv)):
+                    stack = [v for v in vars(cls).values() if isinstance(v, type)]
+                    for base in cls.__mro__[1:]:
+                        stack += [v for v in vars(base).values() if isinstance(v, type)]
+                    while stack:
+                        k = stack.pop()
+                        if k in seen or not getattr(k, '__module__', '').startswith('minecraft.'):
+                            continue
+                        seen.add(k)
+                        stack += [v for v in vars(k).values() if isinstance(v, type)]
+                        stack += [x for x in k.__subclasses__() if getattr(x, '__module__', '').startswith('minecraft.')]
+    for k in seen:
+        try:
+            _USER.append(type('User' + k.__name__, (k,), {'__module__': 'application'}))
+        except Exception:
+            pass
+    return len(_USER)
+
+
 def run(chk, only=None):
     bad = common.lint()
     if bad:
@@ -519,6 +555,8 @@ def run(chk, only=None):
     from minecraft.networking.connection import ConnectionContext, PacketReactor
     from minecraft.networking.packets import Packet
     rng, th = chk.rng, chk.tier == 'thorough'
+    n_user = user_subclasses()
+    chk.assumptions.append('before the round trips an application-style subclass was defined for each of the %d record / event / enum classes nested in packet classes (and their library subclasses): the library still decodes to its own classes' % n_user)
     pos = {p: i for i, p in enumerate(t['known_protocols'])}
     sup = t['supported_protocols']
     if only:
